@@ -1,6 +1,6 @@
 """C06 -- evidence and concatenate (structural clauses)."""
 from ..core import Ctx, Ob, PropSpec
-from ..rules import extra2, r2, r3, r8
+from ..rules import extra2, r2, r3, r8, r7i
 
 
 def run(ctx: Ctx) -> list[Ob]:
@@ -20,6 +20,7 @@ def run(ctx: Ctx) -> list[Ob]:
     obs += extra2.concatenate_order(ctx)
     obs += [o for o in r3.r3d(ctx) if o.instance.startswith("gather") or "Evidence" in o.construct]
     obs += [o for o in r3.r3c(ctx) if "Evidence" in o.construct]
+    obs += r7i.rewiring_order(ctx, ['evidence', 'concatenate'])
     return obs
 
 
@@ -32,9 +33,9 @@ SPEC = PropSpec(
         "multivariate layer is refused before an EvidenceLayer is built; R7e: concatenate traverses its operands in the given order "
         "and appends each operand's outputs in declared order (no sorted/reversed/set/filter); R3c/R3d: a torch evidence layer is "
         "re-instantiated by the folder with its wrapped layer, and the fold-group key gathers the settings of the wrapped layer from "
-        "the sub-module itself (evidence layers wrapping differently-configured layers are not folded together)."
+        "the sub-module itself (evidence layers wrapping differently-configured layers are not folded together). R7i: every comprehension over <circuit>.layer_inputs(<layer>) that re-wires a copied layer in this operator is an order-preserving total map (no `if` filter, not concatenated, not sorted / reversed / made a set): product layers and sum weights are positional."
     ),
     not_decided="numerical equality with the conditioned evaluation.",
     run=run,
-    floors={"R2a": 3, "R8": 3, "R7e": 2, "R3d": 2},
+    floors={"R7i": 2, "R2a": 3, "R8": 3, "R7e": 2, "R3d": 2},
 )
